@@ -1,10 +1,15 @@
 #!/bin/bash
 # runs every seeded change through all claimed checks (scratch worktrees; /repo untouched) and prints a detection matrix:
 #   <seed id>: target=<property> caught-by: <properties whose check fails>   [TARGET-MISS when the targeted property's own check passes]
+# JOBS=n runs n seeds at a time (default 3; one run of the checker uses 3-4 cores).
 cd /verif
-for d in seeded/*/; do id=$(basename $d); [ -f $d/patch.diff ] || continue
+one() {
+  d=$1; id=$(basename $d); [ -f $d/patch.diff ] || exit 0
   tgt=${id%%-*}
   c=$(./seedtool.sh detect $PWD/$d/patch.diff 2>&1 | grep DETECT | sed 's/.*caught-by://')
+  case "$c" in ""|*PATCH-DOES-NOT-APPLY*|*CHECKER-ERROR*) sleep 2; c=$(./seedtool.sh detect $PWD/$d/patch.diff 2>&1 | grep DETECT | sed 's/.*caught-by://');; esac
   miss=""; case " $c " in *" $tgt "*) ;; *) miss="  TARGET-MISS"; grep -q "^$id " seeded/EXPECTED_MISSES.txt && miss="  EXPECTED-MISS";; esac
   echo "$id: target=$tgt caught-by:$c$miss"
-done
+}
+export -f one
+ls -d seeded/*/ | xargs -P ${JOBS:-3} -I{} bash -c 'one {}' | sort
